@@ -2,6 +2,7 @@ package eng
 
 import (
 	"fmt"
+	"strings"
 	"go/token"
 	"go/types"
 	"math/big"
@@ -588,6 +589,48 @@ func (e *Engine) codecEncRecv(T types.Type) types.Type {
 
 const sumAssumption = "summary tokens: inside the lemma function of another type a nested value whose type has a proved round-trip lemma (codec declaration) is one token; decoding it yields a value related to the encoded one by the lemma's equality predicate and consumes that one token (justified by the nested type's lemma; composition argued as for primitive tokens)"
 
+// checkCodec: a codec declaration must be backed by its lemma function: the function exists, is verified with the token model,
+// requires the declared well-formedness predicate, ensures the declared equality predicate and exact consumption and, unless the
+// declaration says "mayreject", that decoding fails only if the reader fails or a third party refuses.
+func (e *Engine) checkCodec(cd *CodecDecl) {
+	if e.codecChecked == nil {
+		e.codecChecked = map[*CodecDecl]bool{}
+	}
+	if e.codecChecked[cd] {
+		return
+	}
+	e.codecChecked[cd] = true
+	e.UsedLemmas = append(e.UsedLemmas, cd.Pkg+"::"+cd.By)
+	ct := e.Specs.Contracts[cd.Pkg+"::"+cd.By]
+	bad := func(why string) {
+		panic(e.unsupported("codec " + cd.Type + ": " + why + " (lemma function " + cd.By + ")"))
+	}
+	if ct == nil || !ct.TokenModel {
+		bad("the lemma function has no token-model contract")
+	}
+	has := func(cls []Clause, sub string) bool {
+		for _, c := range cls {
+			if strings.Contains(c.Src, sub) {
+				return true
+			}
+		}
+		return false
+	}
+	if !has(ct.Requires, cd.WF+"(") {
+		bad("the lemma does not require " + cd.WF)
+	}
+	if !has(ct.Ensures, cd.Eq+"(") {
+		bad("the lemma does not ensure " + cd.Eq)
+	}
+	if !has(ct.Ensures, "rcount(r0) - old(rcount(r0)) == wcount(w0) - old(wcount(w0))") {
+		bad("the lemma does not ensure exact consumption")
+	}
+	if !cd.MayReject && !has(ct.Ensures, "==> decErr == nil") {
+		bad("the lemma has no 'decoding fails only if' clause and the declaration does not say mayreject")
+	}
+	e.Assumed["codec "+cd.Type+": nested values are summary tokens by lemma "+cd.Pkg+"::"+cd.By+" (the lemma is one of the functions of the C14 check)"] = true
+}
+
 // sumInjective: the summary determines the value's leaves (sumval is injective): for all leaves, unsum_i(sumval(l1..ln)) == li.
 func (e *Engine) sumInjective(st *State, RT types.Type) {
 	tb := e.tb
@@ -608,6 +651,7 @@ func (e *Engine) sumInjective(st *State, RT types.Type) {
 func (e *Engine) tokSummaryEncode(st *State, cd *CodecDecl, T types.Type, fn *ssa.Function, args []Val, pos token.Pos, k Kont) {
 	tb := e.tb
 	e.Assumed[sumAssumption] = true
+	e.checkCodec(cd)
 	RT := fn.Signature.Recv().Type()
 	v, w := args[0], args[1]
 	if obj, ok := fn.Object().(*types.Func); ok && fn.Synthetic != "" {
@@ -642,6 +686,7 @@ func (e *Engine) tokSummaryEncode(st *State, cd *CodecDecl, T types.Type, fn *ss
 func (e *Engine) tokSummaryDecode(st *State, cd *CodecDecl, T types.Type, fn *ssa.Function, args []Val, pos token.Pos, k Kont) {
 	tb := e.tb
 	e.Assumed[sumAssumption] = true
+	e.checkCodec(cd)
 	p, r := args[0], args[1]
 	e.nilCheck(st, p, pos, "Decode into nil "+T.String())
 	RT := e.codecEncRecv(T)
@@ -676,6 +721,12 @@ func (e *Engine) tokSummaryDecode(st *State, cd *CodecDecl, T types.Type, fn *ss
 				eq = e.evalPred(st, cd.Eq, []specBind{{e.load(st, p, T), T}, {src, RT}})
 			}
 			e.assume(st, eq)
+			if cd.MayReject {
+				// the nested decoder may refuse for reasons outside its lemma (app resolver, validating constructor)
+				rej := tb.Fresh("nested_rejects", SBool)
+				e.forkOn(st, rej, func(st *State) { e.markRejected(st, r); k(st, e.tokErr(st, "dec")) }, func(st *State) { k(st, nilErr(tb)) })
+				return
+			}
 			k(st, nilErr(tb))
 		}, func(st *State) {
 			rej := tb.Fresh("garbage_rejected", SBool)
